@@ -65,7 +65,8 @@ class C11(Prop):
     rule = ("instants: range ends, every boundary of a pool of special years, leap days, random µs instants, each with offsets "
             "-14:00..+14:00 in 15-min steps (plus a few beyond); durations: 0, ±1µs, ±1s, ±max, random, and values landing next to "
             "the range ends; 8 arithmetic shapes incl. (t+d)-d and (t+d)-t through both runners with literals and bound variables; "
-            "10 accessors × {no zone, fixed offset text, IANA zone, malformed text} through both runners and directly; duration texts "
+            "10 accessors × {no zone, fixed offset text, IANA zone, malformed text} through both runners and directly; accessors of "
+            "the result of timestamp ± duration (own offset kept, with / without a zone argument); duration texts "
             "built from components (all units, fractions, signs, several items, near/over the range) plus malformed ones; datetime "
             "primitives (fromordinal/toordinal/isoweekday) against the model. non-trivial = result or operand within 2 days of a "
             "range end, an error outcome, a local date that differs from the UTC date, a leap day / year boundary, or a duration "
@@ -115,6 +116,8 @@ class C11(Prop):
                 return rng.choice([0, 1, -1, US_S, -US_S, US_DAY, -US_DAY, MAX_DUR, -MAX_DUR, MAX_DUR - 1, -MAX_DUR + 1])
             if r < 0.35:   # land next to a range end
                 tgt = rng.choice([0, MAX_LOC]) + rng.randint(-3, 3) * rng.choice([1, US_S, US_DAY])
+                if rng.random() < 0.3:   # anywhere inside the first / last representable second (sub-second part kept)
+                    tgt = rng.choice([rng.randint(0, US_S - 1), MAX_LOC - rng.randint(0, US_S - 1)])
                 d = tgt - l
                 return max(-MAX_DUR, min(MAX_DUR, d))
             if r < 0.6:
@@ -170,6 +173,19 @@ class C11(Prop):
                 l = rng.randint(loc_of_fields(1950, 1, 1), loc_of_fields(2037, 12, 31))
             via = rng.choice(["I", "C", "Ivar", "Cvar", "direct", "direct"])
             cases.append(acc_case(l, o, rng.choice(ACCESSORS), tzkind, via))
+        # an accessor applied to the RESULT of timestamp ± duration (a value built by the arithmetic dunders, carrying
+        # the operand's own offset), with and without a zone argument, through both runners
+        for _ in range(400 if quick else 6000):
+            l, o = rand_loc(), rand_off()
+            if rng.random() < 0.5 and o == 0:
+                o = rng.choice(offs15)
+            d = rand_dur(l) if rng.random() < 0.4 else rng.randint(-400 * US_DAY, 400 * US_DAY)
+            via = rng.choice(["I", "C", "Ivar", "Cvar"])
+            if via in ("I", "C"):
+                d -= d % US_S if d >= 0 else -((-d) % US_S)
+            c = acc_case(l, o, rng.choice(ACCESSORS), rng.choices(["none", "fixed"], [3, 2])[0], via)
+            c["kind"], c["d"], c["minus"] = "accsum", d, rng.random() < 0.4
+            cases.append(c)
         # the sweep: year boundaries × offsets, called directly (fast)
         years = sorted(set(SPECIAL_YEARS + rng.sample(range(1, 10000), 150))) if quick else range(1, 10000)
         for y in years:
@@ -325,6 +341,14 @@ class C11(Prop):
             if via in ("I", "C"):
                 return run_cel(f"{ts_lit(l, o)}.{name}({arg})", via)
             return run_cel(f"t.{name}({arg})", via[0], {"t": make_ts(l, o)})
+        if k == "accsum":
+            name, via, tz = c["name"], c["via"], c["tz"]
+            l, o, d = c["l"], c["o"], c["d"]
+            arg = "" if c["tzkind"] == "none" else cel_str(tz)
+            sign = "-" if c["minus"] else "+"
+            if via in ("I", "C") and d % US_S == 0:
+                return run_cel(f"({ts_lit(l, o)} {sign} {dur_lit(d)}).{name}({arg})", via)
+            return run_cel(f"(t {sign} d).{name}({arg})", via[0], {"t": make_ts(l, o), "d": make_dur(d)})
         if k == "durparse":
             if c["via"] == "direct":
                 try:
@@ -374,6 +398,10 @@ class C11(Prop):
             if not c["tz"].isascii():
                 return None
             return f"accfix {c['name']} {c['l']} {c['o']} {enc(c['tz'])}"
+        if k == "accsum":
+            if not c["tz"].isascii():
+                return None
+            return f"accsumfix {c['name']} {c['l']} {c['o']} {-c['d'] if c['minus'] else c['d']} {enc(c['tz'])}"
         if k == "durparse":
             if any(ord(ch) > 127 and ch != "µ" for ch in c["text"]):
                 return None
@@ -397,6 +425,12 @@ class C11(Prop):
             return expect_from_model(m, c["via"], "addition", lambda s: "ts " + s)
         if k == "acc":
             return expect_from_model(m, c["via"], "method_eval", lambda s: "int:" + s)
+        if k == "accsum":
+            # an exception of either step (OverflowError of the sum, ValueError/OverflowError of the accessor) is an
+            # evaluation error under both rules on the unchanged tree
+            e1 = expect_from_model(m, c["via"], "addition", lambda s: "int:" + s)
+            e2 = expect_from_model(m, c["via"], "method_eval", lambda s: "int:" + s)
+            return e1 if e1 == e2 else e2
         if k == "durparse":
             return expect_from_model(m, c["via"], "function_eval", lambda s: "dur " + s)
         if k == "durget":
@@ -410,6 +444,13 @@ class C11(Prop):
             return self._oracle_arith(c, out)
         if k == "acc":
             return self._oracle_acc(c, out)
+        if k == "accsum":
+            # (t ± d).getX(zone): when the sum is representable (local and UTC clock) the accessor sees the instant t ± d
+            r = c["l"] - c["d"] if c["minus"] else c["l"] + c["d"]
+            if not (self._in(r) and self._in(r - c["o"])):
+                return None
+            msg = self._oracle_acc(dict(c, l=r), out)
+            return None if msg is None else f"(t {'-' if c['minus'] else '+'} d) with t=(local {c['l']}µs, offset {c['o']}µs) d={c['d']}µs, then " + msg
         if k == "durparse":
             return self._oracle_durparse(c, out)
         if k == "tzoff":
@@ -514,6 +555,8 @@ class C11(Prop):
                 return True
             vals = [c["l"], c["l"] + c["d"], c["l"] - c["d"]]
             return any(v < edge or v > MAX_LOC - edge for v in vals) or abs(c["d"]) > MAX_DUR - US_DAY
+        if k == "accsum":
+            return True
         if k == "acc":
             if not out.startswith("int:"):
                 return True
